@@ -10,6 +10,11 @@ Abstract values:
   ("newtype", path, val)          tuple struct with one field
   ("str", s)
   ("tuple", [vals])
+  ("array", [vals])               array or slice of known length (elements abstract)
+  ("sym", name)                   an opaque atom (e.g. the i-th byte of a symbolic input)
+  ("be", [vals])                  big-endian combination of bytes that are not all known
+  ("closure", hir, env) / ("fnref", path)   function values
+  ("obj", {method: value})        a receiver whose (trait) methods return the given values
   ("any",)                        arbitrary / unknown
   ("ref", val) is not modelled: references are looked through.
 
@@ -231,6 +236,146 @@ class AEval:
         except Return as r:
             return r.value
 
+    # ---------------------------------------------------------------- function values, Option/Result/slice built-ins
+    def apply(self, fv, args, depth):
+        if fv[0] == "closure":
+            clo, cenv = fv[1], dict(fv[2])
+            if len(clo["params"]) != len(args):
+                raise Unknown("closure arity")
+            for p, a in zip(clo["params"], args):
+                if not self.pmatch(p, a, cenv):
+                    raise Unknown("closure parameter pattern")
+            try:
+                return self.ev(clo["body"], cenv, depth + 1)
+            except Return as r:
+                return r.value
+        if fv[0] == "ctorfn":
+            return ("enum", fv[1], list(args))
+        if fv[0] == "fnref":
+            return self.call_path(fv[1], fv[2], args, depth)
+        raise Unknown("call of a non-function value")
+
+    def call_path(self, path, local, args, depth):
+        m = path.split("::")[-1]
+        if path.startswith("core::num::<impl u") and m in ("from_be_bytes", "from_le_bytes") and len(args) == 1 and args[0][0] == "array":
+            xs = list(args[0][1])
+            if m == "from_le_bytes":
+                xs = xs[::-1]
+            if all(x[0] == "int" for x in xs):
+                n = 0
+                for x in xs:
+                    n = (n << 8) | (x[1] & 0xff)
+                return ("int", n)
+            return ("be", xs)
+        if local:
+            return self.call_fn(path, args, depth + 1)
+        raise Unknown("call of " + path)
+
+    SOME, NONE_, OK, ERR = "core::option::Option::Some", "core::option::Option::None", "core::result::Result::Ok", "core::result::Result::Err"
+
+    def builtin_mcall(self, e, env, depth):
+        """Option / Result / slice methods of core on abstract values; None if the method is not one of them"""
+        p = e.get("path") or ""
+        name = p.split("::")[-1]
+        if p.startswith("core::option::Option::<T>::") or p.startswith("core::result::Result::<T, E>::"):
+            is_opt = p.startswith("core::option")
+            v = self.ev(e["recv"], env, depth)
+            if v[0] != "enum":
+                raise Unknown("%s on an arbitrary value" % name)
+            good = v[1] in (self.SOME, self.OK)
+            inner = v[2][0] if good and v[2] else None
+            args = e["args"]
+            if name in ("unwrap_or",):
+                return inner if good else self.ev(args[0], env, depth)
+            if name in ("unwrap_or_else",):
+                return inner if good else self.apply(self.ev(args[0], env, depth), [] if is_opt else list(v[2] or []), depth)
+            if name == "unwrap_or_default":
+                raise Unknown("unwrap_or_default")
+            if name == "map":
+                if not good:
+                    return v
+                return ("enum", v[1], [self.apply(self.ev(args[0], env, depth), [inner], depth)])
+            if name == "and_then":
+                if not good:
+                    return v
+                return self.apply(self.ev(args[0], env, depth), [inner], depth)
+            if name == "map_or":
+                return self.apply(self.ev(args[1], env, depth), [inner], depth) if good else self.ev(args[0], env, depth)
+            if name == "map_or_else":
+                return self.apply(self.ev(args[1], env, depth), [inner], depth) if good else self.apply(self.ev(args[0], env, depth), [], depth)
+            if name == "ok" and not is_opt:
+                return ("enum", self.SOME, [inner]) if good else ("enum", self.NONE_, [])
+            if name in ("ok_or", "ok_or_else") and is_opt:
+                if good:
+                    return ("enum", self.OK, [inner])
+                return ("enum", self.ERR, [ANY])
+            if name == "filter" and is_opt:
+                if not good:
+                    return v
+                c = self.apply(self.ev(args[0], env, depth), [inner], depth)
+                if c[0] != "bool":
+                    raise Unknown("filter predicate")
+                return v if c[1] else ("enum", self.NONE_, [])
+            if name in ("is_some", "is_ok"):
+                return ("bool", good)
+            if name in ("is_none", "is_err"):
+                return ("bool", not good)
+            if name in ("copied", "cloned", "as_ref", "as_deref"):
+                return v
+            raise Unknown("method " + p)
+        if p.startswith("core::slice::<impl [T]>::") or p.startswith("core::array::<impl [T; N]>::"):
+            v = self.ev(e["recv"], env, depth)
+            if v[0] != "array":
+                raise Unknown("%s on an arbitrary value" % name)
+            xs = v[1]
+            args = [self.ev(a, env, depth) for a in e["args"]]
+            def bounds(r):
+                if r[0] != "range":
+                    raise Unknown("slice index is not a range")
+                lo = 0 if r[1] is None else r[1][1]
+                hi = len(xs) if r[2] is None else (r[2][1] + 1 if r[3] else r[2][1])
+                return lo, hi
+            if name == "len":
+                return ("int", len(xs))
+            if name == "is_empty":
+                return ("bool", not xs)
+            if name == "get" and args[0][0] == "range":
+                lo, hi = bounds(args[0])
+                return ("enum", self.SOME, [("array", xs[lo:hi])]) if lo <= hi <= len(xs) else ("enum", self.NONE_, [])
+            if name == "get" and args[0][0] == "int":
+                return ("enum", self.SOME, [xs[args[0][1]]]) if args[0][1] < len(xs) else ("enum", self.NONE_, [])
+            if name in ("first_chunk", "split_first_chunk", "split_at_checked", "split_at"):
+                n = None
+                if name in ("split_at", "split_at_checked"):
+                    n = args[0][1] if args[0][0] == "int" else None
+                else:
+                    import re as _re
+                    m_ = _re.search(r"\[u8; (\d+)", e.get("ty", ""))
+                    n = int(m_.group(1)) if m_ else None
+                if n is None:
+                    raise Unknown("chunk size")
+                if n > len(xs):
+                    if name == "split_at":
+                        raise Unknown("split_at out of range (panics)")
+                    return ("enum", self.NONE_, [])
+                head, tail = ("array", xs[:n]), ("array", xs[n:])
+                if name == "first_chunk":
+                    return ("enum", self.SOME, [head])
+                if name == "split_at":
+                    return ("tuple", [head, tail])
+                return ("enum", self.SOME, [("tuple", [head, tail])])
+            if name in ("iter", "to_vec", "as_slice", "as_ref"):
+                return v
+            raise Unknown("method " + p)
+        if name == "try_into" and "TryInto" in p:
+            v = self.ev(e["recv"], env, depth)
+            import re as _re
+            m_ = _re.search(r"Result<&?\[u8; (\d+)", e.get("ty", ""))
+            if v[0] == "array" and m_:
+                return ("enum", self.OK, [v]) if len(v[1]) == int(m_.group(1)) else ("enum", self.ERR, [ANY])
+            raise Unknown("try_into")
+        return None
+
     def cond(self, c, env, depth):
         """evaluate an `if` condition; `if let PAT = E` binds into env. -> bool"""
         c = strip(c)
@@ -264,6 +409,9 @@ class AEval:
                 return ("ctorfn", e["path"])
             if "val" in e:
                 return ("int", e["val"])
+            if dk in ("Fn", "AssocFn"):
+                tgt = e.get("resolved") or e["path"]
+                return ("fnref", tgt, bool(e.get("resolved_local") if e.get("resolved") else e.get("local")))
             raise Unknown("path " + e["path"])
         if k == "addrof":
             return self.ev(e["x"], env, depth)
@@ -298,16 +446,7 @@ class AEval:
                         return ("newtype", f["path"], args[0] if len(args) == 1 else ("tuple", args))
                     return ("enum", f["path"], args)
                 if f["path"].startswith("core::num::<impl u") and f["path"].split("::")[-1] in ("from_be_bytes", "from_le_bytes") and len(e["args"]) == 1:
-                    a = self.ev(e["args"][0], env, depth)
-                    if a[0] == "array" and all(x[0] == "int" for x in a[1]):
-                        xs = [x[1] for x in a[1]]
-                        if f["path"].endswith("from_le_bytes"):
-                            xs = xs[::-1]
-                        n = 0
-                        for x in xs:
-                            n = (n << 8) | (x & 0xff)
-                        return ("int", n)
-                    raise Unknown("from_bytes of partially known bytes")
+                    return self.call_path(f["path"], False, [self.ev(e["args"][0], env, depth)], depth)
                 if f["path"] == "core::ops::range::RangeInclusive::<Idx>::new" and len(e["args"]) == 2:
                     a, b = [self.ev(x, env, depth) for x in e["args"]]
                     a, b = [(v[2] if v[0] == "newtype" else v) for v in (a, b)]
@@ -315,7 +454,25 @@ class AEval:
                 if f.get("local") and dk in ("Fn", "AssocFn"):
                     args = [self.ev(a, env, depth) for a in e["args"]]
                     return self.call_fn(f.get("resolved") or f["path"], args, depth + 1)
+                if dk in ("Fn", "AssocFn"):
+                    args = [self.ev(a, env, depth) for a in e["args"]]
+                    return self.call_path(f.get("resolved") or f["path"], False, args, depth)
+            if f["k"] == "local":
+                fv = self.ev(f, env, depth)
+                return self.apply(fv, [self.ev(a, env, depth) for a in e["args"]], depth)
             raise Unknown("call of " + str(f.get("path")))
+        if k == "closure":
+            return ("closure", e, dict(env))
+        if k == "repeat":
+            import re as _re
+            m_ = _re.search(r"; (\d+)\]$", e.get("ty", ""))
+            if m_:
+                return ("array", [self.ev(e["x"], env, depth)] * int(m_.group(1)))
+            raise Unknown("array repeat with unknown count")
+        if k == "mcall":
+            r = self.builtin_mcall(e, env, depth)
+            if r is not None:
+                return r
         if k == "mcall" and e.get("path") and e["path"].startswith("core::num::<impl u") and e["path"].split("::")[-1] in ("to_be_bytes", "to_le_bytes"):
             v = self.ev(e["recv"], env, depth)
             if v[0] == "newtype":
@@ -332,6 +489,12 @@ class AEval:
             i = self.ev(e["i"], env, depth)
             if a[0] == "array" and i[0] == "int" and 0 <= i[1] < len(a[1]):
                 return a[1][i[1]]
+            if a[0] == "array" and i[0] == "range":
+                lo = 0 if i[1] is None else i[1][1]
+                hi = len(a[1]) if i[2] is None else (i[2][1] + 1 if i[3] else i[2][1])
+                if lo <= hi <= len(a[1]):
+                    return ("array", a[1][lo:hi])
+                raise Unknown("slice index out of range (panics)")
             raise Unknown("index")
         if k == "mcall" and (e.get("path") or "") in ("core::option::Option::<T>::is_some", "core::option::Option::<T>::is_none"):
             v = self.ev(e["recv"], env, depth)
@@ -351,6 +514,14 @@ class AEval:
             lo, hi, incl = r[1], r[2], r[3]
             ok = (lo is None or lo[1] <= x[1]) and (hi is None or (x[1] <= hi[1] if incl else x[1] < hi[1]))
             return ("bool", ok)
+        if k == "mcall":
+            rv = None
+            try:
+                rv = self.ev(e["recv"], env, depth)
+            except Unknown:
+                rv = None
+            if rv is not None and rv[0] == "obj" and e["name"] in rv[1] and not e["args"]:
+                return rv[1][e["name"]]
         if k == "mcall":
             target = e.get("resolved") or e.get("path")
             is_local = e.get("resolved_local") if e.get("resolved") else e.get("local")
